@@ -24,13 +24,23 @@ RULE = ("random operation histories (5-40 ops, 40% of the ops stay on the previo
         "often followed by re-evaluation and a look at the hook that lost the implementation; root hooks declared up "
         "front in half of the cases) over 1-3 fresh classes (linear hierarchies and independent roots, plain HookHost or "
         "Unit.Profile based), 1-5 instances, 2-5 hooks; implementations and explicit callables are data (constant incl. "
-        "0/False, None, read a lower-numbered hook and combine, read it if has_value) with invocation logging; a case is "
+        "0/False, None, read a lower-numbered hook and combine, read it if has_value) with invocation logging; an explicit "
+        "callable is drawn from every kind python offers for its number of parameters (lambda, def, bound method, bound "
+        "classmethod, staticmethod, functools.partial of a function / of a bound method, callable object and its bound "
+        "__call__, builtin method-wrapper, functools.wraps wrapper of a function / of a bound method, optional second "
+        "parameter, *args, keyword-only option) and is read at once in half of the cases; a case is "
         "one history, non-trivial = it contains successful reads served from at least two different sources (explicit / "
         "remembered / computed) or a re-evaluation of a non-empty cache; distinct by the canonical op list. Plus solved "
         "real pass sequences (two passes, a transport between) for the root-hook sentences.")
 ASSUMPTIONS = [
     "CPython dict insertion order, descriptor protocol, inspect.signature arity and hasattr/getattr-default "
     "semantics are modelled, not verified",
+    "the model classifies an explicit callable only by the number of parameters inspect.signature reports for it (call0 / "
+    "call1 / call2 = 0 / 1 or one required plus optional ones / two required); that python callables of every generated "
+    "kind (lambda, def, bound method, classmethod, staticmethod, partial, callable object, builtin method-wrapper, "
+    "functools.wraps wrapper, defaults, *args) behave as their class says is checked by the correspondence and demanded "
+    "by the oracle, not proved; callables without a signature (builtin types) or with keyword-only parameters and no "
+    "positional one are outside the generated domain",
     "the model is tied to the code by sampled differential runs (result, invocation trace and the ordered __dict__ / "
     "__cache__ of every instance compared after every op)",
     "outside this model (generator produces none of them; they belong to C07 / C01 / C16): non-finite results "
@@ -116,31 +126,150 @@ def make_function(body_tok, log, ident):
     return f
 
 
-def make_explicit(tok, log):
-    """python object to assign for a dict-value token"""
+# The kinds of callables python offers, per number of parameters that `inspect.signature` reports ("arity" of the
+# model: c0 / c1 / c2).  The property speaks of "an assigned callable", not of lambdas: every kind must be invoked and
+# the value it produces returned.  Only kinds for which the property text fixes the outcome are generated:
+#   * `dflt` / `star` zero-argument callables accept a call without and with one argument (`def f(x=None)`,
+#     `def f(*a)`); they return the same value either way, so both ways of invoking them are accepted;
+#   * not generated (outside "zero- or one-argument callable" or without a signature): keyword-only parameters without
+#     positional ones (`partial(f, x=1)`, `lambda **kw`: one signature parameter, cannot take the instance), builtin types
+#     such as `int` (inspect.signature raises ValueError), `f.__call__` method-wrappers (signature `(*args, **kwargs)`).
+KINDS = {
+    "c0": ["lam", "def", "bm", "cm", "sm", "part", "partbm", "obj", "objcall", "iter", "wraps", "wrapsbm", "dflt", "star"],
+    "c1": ["lam", "def", "bm", "cm", "sm", "part", "partbm", "obj", "objcall", "missing", "wraps", "wrapsbm", "dflt",
+           "star", "kwd"],
+    "c2": ["lam", "def", "bm", "part", "obj", "wraps"],
+}
+
+
+def _shape(core, a, lead):
+    """a `def` with `lead` ignored leading parameters followed by exactly `a` parameters handed to `core`"""
+    if lead == 0:
+        if a == 0:
+            def f():
+                return core()
+        elif a == 1:
+            def f(host):
+                return core(host)
+        else:
+            def f(host, other):
+                return core(host, other)
+    elif lead == 1:
+        if a == 0:
+            def f(_x):
+                return core()
+        elif a == 1:
+            def f(_x, host):
+                return core(host)
+        else:
+            def f(_x, host, other):
+                return core(host, other)
+    else:
+        if a == 0:
+            def f(_x, _y):
+                return core()
+        elif a == 1:
+            def f(_x, _y, host):
+                return core(host)
+        else:
+            def f(_x, _y, host, other):
+                return core(host, other)
+    return f
+
+
+def make_callable(core, a, kind):
+    """wrap `core` (taking exactly `a` arguments) as a python callable of the given kind whose `inspect.signature`
+    shows `a` parameters (kinds dflt/star/kwd: `a` required ones plus an optional one)"""
+    import functools
+    if kind == "lam":
+        return [lambda: core(), lambda host: core(host), lambda host, other: core(host, other)][a]
+    if kind == "def":
+        return _shape(core, a, 0)
+    if kind in ("bm", "cm", "sm", "partbm", "wrapsbm"):
+        src_cls = type("Source", (), {"m": _shape(core, a, 1), "c": classmethod(_shape(core, a, 1)),
+                                      "s": staticmethod(_shape(core, a, 0)), "p": _shape(core, a, 2)})
+        src = src_cls()
+        if kind == "bm":
+            return src.m                                   # bound method, `a` further parameters
+        if kind == "cm":
+            return src_cls.c                               # classmethod bound to its class
+        if kind == "sm":
+            return src.s                                   # staticmethod looked up through an instance
+        if kind == "partbm":
+            return functools.partial(src.p, "fixed")       # partial of a bound method
+        bound = src.m
+
+        @functools.wraps(bound)
+        def wrapper_bm(*args, **kwargs):
+            return bound(*args, **kwargs)
+        return wrapper_bm
+    if kind == "part":
+        return functools.partial(_shape(core, a, 1), "fixed")
+    if kind in ("obj", "objcall"):
+        obj = type("Provider", (), {"__call__": _shape(core, a, 1)})()
+        return obj if kind == "obj" else obj.__call__
+    if kind == "iter":                                     # builtin method-wrapper with the signature `()`
+        assert a == 0
+        return iter(_shape(core, 0, 0), object()).__next__
+    if kind == "missing":                                  # builtin method-wrapper with the signature `(key, /)`
+        assert a == 1
+        return type("Lookup", (dict,), {"__missing__": _shape(core, 1, 1)})().__getitem__
+    if kind == "wraps":
+        inner = _shape(core, a, 0)
+
+        @functools.wraps(inner)
+        def wrapper(*args, **kwargs):
+            return inner(*args, **kwargs)
+        return wrapper
+    if kind == "dflt":
+        if a == 0:
+            def f(_ignored=None):
+                return core()
+        else:
+            def f(host, _extra=None):
+                return core(host)
+        return f
+    if kind == "star":
+        if a == 0:
+            def f(*_rest):
+                return core()
+        else:
+            def f(host, *_rest):
+                return core(host)
+        return f
+    if kind == "kwd":
+        assert a == 1
+
+        def f(host, *, _opt=None):
+            return core(host)
+        return f
+    raise ValueError(kind)
+
+
+def make_explicit(tok, log, kind="lam"):
+    """python object to assign for a dict-value token (and the kind of callable)"""
     p = tok.split(":", 2)
     if tok == "N":
         return None
     if p[0] == "p":
         return val_of(p[1])
     ident = int(p[1])
+    if kind not in KINDS[p[0]]:
+        raise ValueError(f"callable kind {kind} for {p[0]}")
     if p[0] == "c0":
         v = val_of(p[2])
 
-        def g():
+        def core():
             log.append(ident)
             return v
-    elif p[0] == "c1":
-        inner = make_function(p[2], log, ident)
+        return make_callable(core, 0, kind)
+    if p[0] == "c1":
+        return make_callable(make_function(p[2], log, ident), 1, kind)
 
-        def g(self):
-            return inner(self)
-    else:  # c2: malformed, two parameters
-        def g(self, other):
-            log.append(ident)
-            return 1
-    g._tok = tok
-    return g
+    def core2(host, other):          # c2: malformed, two required parameters
+        log.append(ident)
+        return 1
+    return make_callable(core2, 2, kind)
 
 
 # ---------------------------------------------------------------------------------------------------------------
@@ -157,6 +286,7 @@ class Real:
         self.hfs = {}
         self.log = []
         self.roots = []
+        self.explicit = []       # (object assigned, token): bound methods / builtins cannot carry an attribute
         self.unit = Unit(label="c02") if mode == "profile" else None
 
     def idx(self, o):
@@ -170,6 +300,12 @@ class Real:
             if x is cls:
                 return k
         raise AssertionError("unknown class")
+
+    def tok_explicit(self, v):
+        for o, t in self.explicit:
+            if o is v:
+                return t
+        return tok_of(v) if v is None else "p:" + tok_of(v)
 
     def guarded(self, fn):
         """run a call into pyroll; exceptions are outcomes"""
@@ -199,28 +335,39 @@ class Real:
             else:
                 dct = {}
                 base = self.classes[mro[1]]
-            cls = type(f"C{c}", (base,), dct)
+            try:
+                cls = type(f"C{c}", (base,), dct)
+            except Exception as e:          # class creation runs pyroll's metaclass / __init_subclass__
+                return type(e).__name__
             self.classes[c] = cls
             real_mro = [self.cidx(k) for k in cls.__mro__ if any(k is x for x in self.classes.values())]
             assert real_mro == list(mro), (real_mro, mro)
             return "ok"
         if name == "inst":
             cls = self.classes[op[1]]
-            o = cls() if self.mode == "host" else cls(self.unit, self.Profile())
+            try:
+                o = cls() if self.mode == "host" else cls(self.unit, self.Profile())
+            except Exception as e:
+                return type(e).__name__
             self.insts.append(o)
             return "ok"
         if name == "handover":
             cls = self.classes[op[2]]
-            o = cls(self.unit, self.insts[op[1]])          # the real Unit.Profile.__init__
+            try:
+                o = cls(self.unit, self.insts[op[1]])          # the real Unit.Profile.__init__
+            except Exception as e:
+                return type(e).__name__
             self.insts.append(o)
             return "ok"
         if name == "read":
             o = self.insts[op[1]]
             return self.guarded(lambda: getattr(o, f"h{op[2]}"))
         if name == "assign":
-            v = make_explicit(op[3], self.log)
-            setattr(self.insts[op[1]], f"h{op[2]}", v)
-            return "ok"
+            v = make_explicit(op[3], self.log, op[4] if len(op) > 4 else "lam")
+            if callable(v):
+                self.explicit.append((v, op[3]))
+            o = self.insts[op[1]]
+            return self.guarded(lambda: setattr(o, f"h{op[2]}", v) or "ok")
         if name == "delete":
             o = self.insts[op[1]]
             return self.guarded(lambda: delattr(o, f"h{op[2]}") or "ok")
@@ -228,17 +375,21 @@ class Real:
             o = self.insts[op[1]]
             return self.guarded(lambda: o.reevaluate_cache())
         if name == "clear":
-            self.insts[op[1]].__cache__.clear()
-            return "ok"
+            o = self.insts[op[1]]
+            return self.guarded(lambda: o.__cache__.clear() or "ok")
         if name == "add":
             ident, c, n, btok = op[1:]
-            hook = getattr(self.classes[c], f"h{n}")
-            self.hfs[ident] = hook.add_function(make_function(btok, self.log, ident))
-            return "ok"
+            f = make_function(btok, self.log, ident)
+
+            def register():
+                self.hfs[ident] = getattr(self.classes[c], f"h{n}").add_function(f)
+                return "ok"
+            return self.guarded(register)
         if name == "remove":
-            hf = self.hfs.pop(op[1])
-            hf.hook.remove_function(hf)
-            return "ok"
+            hf = self.hfs.pop(op[1], None)
+            if hf is None:
+                return "not-registered"
+            return self.guarded(lambda: (hf.hook.remove_function(hf), "ok")[1])
         if name in ("hasset", "hascached", "hassoc", "hasvalue"):
             o = self.insts[op[1]]
             meth = {"hasset": "has_set", "hascached": "has_cached", "hassoc": "has_set_or_cached",
@@ -277,7 +428,7 @@ class Real:
             for k, v in o.__dict__.items():
                 m = HOOK_RE.match(k)
                 if m:
-                    d.append((int(m.group(1)), getattr(v, "_tok", None) or (tok_of(v) if v is None else "p:" + tok_of(v))))
+                    d.append((int(m.group(1)), self.tok_explicit(v)))
             c = []
             for k, v in o.__cache__.items():
                 m = HOOK_RE.match(k)
@@ -495,8 +646,8 @@ def parse_line(line):
         return ("roots", [] if t[1] == "-" else [tuple(int(y) for y in x.split(":")) for x in t[1].split(",")])
     if n == "fb":
         return ("fb", int(t[1]), None if t[2] == "_" else int(t[2]))
-    if n == "assign":
-        return ("assign", int(t[1]), int(t[2]), t[3])
+    if n == "assign":        # optional 5th token: the kind of callable (the model ignores it: its arity is in the value token)
+        return ("assign", int(t[1]), int(t[2]), t[3]) + tuple(t[4:5])
     if n == "add":
         return ("add", int(t[1]), int(t[2]), int(t[3]), t[4])
     return (n,) + tuple(int(x) for x in t[1:])
@@ -583,17 +734,26 @@ def gen_case(rng, max_ops):
             op = ("read", i, n)
         elif r < 0.42:
             q = rng.random()
-            if q < 0.45:
+            if q < 0.40:
                 v = "p:" + rng.choice(VALS)
             elif q < 0.6:
                 v = f"c0:{fresh()}:{rng.choice(VALS + ['N'])}"
-            elif q < 0.8:
+            elif q < 0.82:
                 v = f"c1:{fresh()}:{gen_body(rng, n)}"
             elif q < 0.95:
                 v = "N"
             else:
                 v = f"c2:{fresh()}"
             op = ("assign", i, n, v)
+            if v[0] == "c":
+                # every kind of callable python offers for this number of parameters (lambda, def, bound method, partial, ...)
+                op += (rng.choice(KINDS[v[:2]]),)
+                if rng.random() < 0.5:
+                    # scripted follow-up: the callable is invoked on EVERY read (its result is never remembered)
+                    ops.append(op)
+                    ops.append((rng.choice(["read", "read", "hasvalue"]), i, n))
+                    count += 2
+                    op = ("read", i, n)
         elif r < 0.49:
             op = ("delete", i, n)
         elif r < 0.58:
@@ -705,11 +865,17 @@ def run_case(case, want_obs=False):
             sources.add(src.split("-")[0])
         obs.append(f"{r_out} | {comma(r_tr)} | {dump(r_st)}")
         if bad is None and (r_out != e_out or r_tr != e_tr or dump(r_st, False) != dump(e_st, False)):
-            bad = (k, clause_key(op, src, r_out, e_out, r_st, e_st, r_tr, e_tr),
-                   {"op": to_line(op), "observed": [r_out, comma(r_tr), dump(r_st, False)],
-                    "expected": [e_out, comma(e_tr), dump(e_st, False)]})
+            info = {"op": to_line(op), "observed": [r_out, comma(r_tr), dump(r_st, False)],
+                    "expected": [e_out, comma(e_tr), dump(e_st, False)]}
+            if src and src.startswith("explicit-callable"):
+                # which kind of callable (lambda, bound method, partial ...) sits there: the latest assignment to (i, n)
+                last = [o for o in case["ops"][:k] if o[0] == "assign" and o[1:3] == op[1:3]][-1]
+                info["explicit"] = f"{last[3]} kind={last[4] if len(last) > 4 else 'lam'}"
+            bad = (k, clause_key(op, src, r_out, e_out, r_st, e_st, r_tr, e_tr), info)
             if not want_obs:
                 break
+        if op[0] in STRUCTURAL and r_out != "ok":
+            break            # the class / instance does not exist: the rest of the history cannot be applied
     return obs, bad, sources
 
 
@@ -748,10 +914,15 @@ def report(ctx, case, bad):
         ctx.count("further-violations:" + key)
         return
     small = shrink(case, k, key)
-    _, bad2, _ = run_case({**case, "ops": small})
+    try:
+        _, bad2, _ = run_case({**case, "ops": small})
+    except Exception:
+        small, bad2 = list(case["ops"][:k + 1]), None
     if bad2 is not None:
         info = bad2[2]
-    ctx.violation(key, f"{key}: after `{info['op']}` observed {info['observed'][0]} / trace {info['observed'][1]}, "
+    ctx.violation(key, f"{key}: after `{info['op']}`"
+                       + (f" (explicit value {info['explicit']})" if "explicit" in info else "")
+                       + f" observed {info['observed'][0]} / trace {info['observed'][1]}, "
                        f"expected {info['expected'][0]} / trace {info['expected'][1]}",
                   {"mode": case["mode"], "nhooks": case["nhooks"], "ops": [to_line(o) for o in small], **info,
                    "how": "driver/props/c02.py replay: classes via type() (HookHost or Unit.Profile based), hooks h0.., "
@@ -793,6 +964,18 @@ CORPUS = [
                                          ("assign", 0, 2, "c0:2:i0"), ("read", 0, 2), ("hascached", 0, 2),
                                          ("roots", [(0, 0)]), ("fb", 1, 0), ("assign", 0, 0, "p:i9"), ("evalroot", 1),
                                          ("remove", 0), ("evalroot", 1), ("reeval", 1), ("read", 1, 0)]},
+    # every kind of explicit callable: bound methods with 0 / 1 further parameter, classmethods, partials, callable
+    # objects, builtin method-wrappers, functools.wraps wrappers, defaults / *args; over a remembered value, which
+    # stays untouched; falsy and None results; invoked on every read
+    {"mode": "host", "nhooks": 3, "ops":
+        [("class", 0, [0]), ("inst", 0), ("add", 0, 0, 0, "const:i2"), ("add", 1, 0, 1, "const:i21"), ("read", 0, 1)]
+        + [x for j, k in enumerate(KINDS["c0"])
+           for x in (("assign", 0, 1, f"c0:{10 + j}:{['i0', 'i7', 'bF', 'N'][j % 4]}", k), ("read", 0, 1), ("read", 0, 1))]
+        + [x for j, k in enumerate(KINDS["c1"])
+           for x in (("assign", 0, 1, f"c1:{40 + j}:{['read:0:3:1', 'const:i0', 'try:0:1:0', 'none'][j % 4]}", k),
+                     ("read", 0, 1), ("hasvalue", 0, 1))]
+        + [x for j, k in enumerate(KINDS["c2"]) for x in (("assign", 0, 2, f"c2:{70 + j}", k), ("read", 0, 2))]
+        + [("hascached", 0, 1), ("delete", 0, 1), ("read", 0, 1), ("hascached", 0, 2)]},
 ]
 
 
@@ -827,7 +1010,12 @@ def check_solved_sequence(ctx, seq, desc):
                 ctx.count("unit-root-explicit")
             # survive re-evaluation: explicit values are the same objects afterwards and are what a read returns
             before = public(o.__dict__)
-            o.reevaluate_cache()
+            try:
+                o.reevaluate_cache()
+            except Exception as ex:          # raised from inside pyroll on a solved unit: the explicit values did not "survive"
+                probs.append(("solved-reevaluate-raised",
+                              f"{desc}: reevaluate_cache of the {role} of {u} after solve raised {ex!r}"))
+                continue
             after = public(o.__dict__)
             if list(before) != list(after) or any(before[k] is not after[k] for k in before):
                 probs.append(("solved-reevaluate-changed-explicit",
@@ -835,7 +1023,11 @@ def check_solved_sequence(ctx, seq, desc):
             for h in list(root_hooks):
                 if issubclass(type(o), h.owner) and h.name in o.__dict__ and not callable(o.__dict__[h.name]) \
                         and o.__dict__[h.name] is not None:
-                    if getattr(o, h.name) is not o.__dict__[h.name]:
+                    try:
+                        got = getattr(o, h.name)
+                    except Exception as ex:
+                        got = ex
+                    if got is not o.__dict__[h.name]:
                         probs.append(("solved-root-read-not-explicit",
                                       f"{desc}: reading root hook {h.name} of the {role} of {u} does not return the "
                                       f"explicit value"))
@@ -905,7 +1097,15 @@ def run(ctx):
     lean_lines = []
     all_obs = []
     for idx, case in enumerate(cases):
-        obs, bad, sources = run_case(case, want_obs=True)
+        try:
+            obs, bad, sources = run_case(case, want_obs=True)
+        except Exception as ex:
+            # the implementation under test behaved in a way the harness cannot observe / drive any further (on the code as
+            # it is this never happens): the tie is broken - not a crash of the check
+            ctx.count("harness-could-not-observe:" + type(ex).__name__)
+            ctx.disagreement(f"the harness could not drive / observe the implementation on this history: {ex!r}",
+                             {"mode": case["mode"], "nhooks": case["nhooks"], "ops": [to_line(o) for o in case["ops"]]})
+            continue
         canon = [case["mode"], case["nhooks"]] + [to_line(o) for o in case["ops"]]
         ctx.case(canon, nontrivial=len(sources - {"reeval", "reeval-other-order"}) >= 2 or "reeval" in sources)
         ctx.count("mode:" + case["mode"])
@@ -913,6 +1113,8 @@ def run(ctx):
             ctx.count("op:" + o[0])
             if o[0] == "assign":
                 ctx.count("assign:" + o[3].split(":")[0] + (":falsy" if o[3] in ("p:i0", "p:bF") else ""))
+                if len(o) > 4:
+                    ctx.count(f"callable:{o[3][:2]}:{o[4]}")
         for s in sources:
             ctx.count("served:" + s)
         for line in obs:
@@ -924,7 +1126,7 @@ def run(ctx):
         if bad is not None:
             report(ctx, case, bad)
         lean_lines.append("reset")
-        lean_lines.extend(to_line(o) for o in case["ops"])
+        lean_lines.extend(to_line(o) for o in case["ops"][:len(obs)])
         all_obs.append((case, obs))
 
     # ---- model side -----------------------------------------------------------------------------------------
